@@ -22,7 +22,7 @@ struct C14Sys {
         for (int i = 0; i < nb; ++i) {
             MobilizedBody& parent = rs.matter.updMobilizedBody(MobilizedBodyIndex(par[i]));
             // Weld is over-represented on purpose (the reaction must carry the whole outboard subtree)
-            int ty = r.I(0, 4) == 0 ? 16 : r.I(0, NMOBTYPES - 1); bool rev = r.I(0, 3) == 0;
+            int ty = r.I(0, 4) == 0 ? 16 : r.I(0, NMOBTYPES_ALL - 1); bool rev = r.I(0, 3) == 0;
             bool massless = mode == 1 && nkids[i + 1] > 0 && ty != 16 && r.I(0, 2) == 0;
             if (massless) ++nmassless;
             Body::Rigid body(massless ? MassProperties(0, Vec3(0), Inertia(0)) : randomMassProps(r));
